@@ -37,5 +37,18 @@ TEXTS = [
     ("if-else-ladders", "void f(int a, int b) { if (a) if (b) a = 1; else { } else a = 2; if (a) while (b) if (a) b = 1; else ; else b = 2; }"),
     ("bitfields-mix", "typedef int T; struct B { T : 3; const T : 2; int a : 1, : 2, b : 3; unsigned : 0; T c : 4; };"),
     ("paren-typedef-params", "typedef char TT; int f1(int *(TT)); int f2(int (*(TT))); int f3(int * const (TT)); int f4(int (TT), int (*pf)(TT), int (*)(TT));"),
+    ("kr-undeclared", "int scale(v, flag, n) int n; double *v; { return flag ? n : 0; } int none(a, b) { return a; } int nolist() { return 0; }"),
+    ("raw-tabs-in-strings", "const char *msg = \"id\tname\tvalue\"; int after = sizeof \"\t\"; void *w = L\"a\tb\" L\"\t\";"),
+    ("raw-tabs-in-chars", "int width = '\t' + L'\t'; int two = 'a\t';"),
+    ("raw-tabs-in-pragma", "int before;\n#pragma omp\tparallel  \tfor\nint after;"),
+    ("pragmas-then-empty", "void f(int pending) { while (pending)\n#pragma omp taskwait\n#pragma omp flush\n ; if (pending)\n#pragma one\n ; else\n#pragma a\n#pragma b\n ; lab:\n#pragma x\n#pragma y\n ; }"),
+    ("adjacent-empty-strings", "const char *a = \"abc\" \"\" \"d\"; const char *b = \"x\" \"\"; void *c = L\"ab\" L\"\" L\"c\"; const char *d = \"\" \"\" \"e\" \"\";"),
+    ("for-decl-nested-decls", "int add(int a, int b); int g(int n) { int s = 0; for (int i = 0, (*op)(int a, int b) = add, z = (int)sizeof(struct { char c; int v; }); "
+                              "i < n; i++) s += op(i, z); return s; }"),
+    ("label-runs", "void f(int x) { a: b: c: x++; d: e: f: g: ; h: ; int y; y = x; }"),
+    ("cast-of-compound-literal", "struct S { int a; }; void f(int *p) { long x = (long)(int){1}; p = (int *)(int[]){1, 2}; (void)(struct S){0}; x = (long)((int){2}); }"),
+    ("sizeof-postfix", "int f(int *p, int x) { return (sizeof x)[p] + (sizeof(int))[p] + sizeof(x)[p] + sizeof (p)[0]; }"),
+    ("assignment-chains", "void f(int a, int b, int c, int d) { a = b += c = d; a = (b = c); a = b = c ? d : (a = 1); }"),
+    ("atomic-typenames", "int n1 = sizeof(_Atomic(int)); int n2 = _Alignof(_Atomic(long)); void f(int y, int *p) { y = (_Atomic(int))y; p = &(_Atomic(int)){0}; y = sizeof(_Atomic(int *)); }"),
     ("mixed-ops-bare", "unsigned mix(unsigned a, unsigned b, unsigned c) { return a | b ^ c & a, a ^ b | c, a < b * c + a, a || b == c && a, a | b << c & a, a - b - c, a / b * c % a; }"),
 ]
